@@ -67,6 +67,12 @@ func explore(t *testing.T, sp space) {
 		env := newBubbleEnv(sp.cfg)
 		defer env.close()
 		root = run(sp.cfg, env, nil)
+		// the canonical key reads two private structures (window contents, checker counters)
+		w := newWorld(sp.cfg, env)
+		if w.counter(names[0], pids[0]) < 0 {
+			R.Note("state_key_degraded", "checker counters / monitor store not readable by reflection: states are merged on the reference facts and window contents only")
+		}
+		w.close()
 	})
 	seen[root.key] = struct{}{}
 	frontier[0].dup = root.dup
@@ -88,58 +94,70 @@ func explore(t *testing.T, sp space) {
 				tasks = append(tasks, task{pi, uint16(ei)})
 			}
 		}
-		results := make([]result, len(tasks))
-		done := make([]bool, len(tasks))
-		var next int
-		var mu sync.Mutex
-		var wg sync.WaitGroup
-		for w := 0; w < sp.workers; w++ {
-			wg.Add(1)
-			go func() {
-				defer wg.Done()
-				for {
-					mu.Lock()
-					lo := next
-					if lo >= len(tasks) || time.Since(startWall) > sp.wallCap {
-						mu.Unlock()
-						return
-					}
-					hi := lo + sp.chunk
-					if hi > len(tasks) {
-						hi = len(tasks)
-					}
-					next = hi
-					mu.Unlock()
-					synctest.Test(t, func(t *testing.T) {
-						env := newBubbleEnv(sp.cfg)
-						defer env.close()
-						for i := lo; i < hi; i++ {
-							tk := tasks[i]
-							results[i] = run(sp.cfg, env, histOf(alpha, frontier[tk.parent].hist, tk.ev))
-							done[i] = true
-						}
-					})
-				}
-			}()
-		}
-		wg.Wait()
 		var nextFrontier []node
 		newStates := 0
-		for i, tk := range tasks {
-			if !done[i] {
-				capped = true
-				continue
+		const batch = 200000
+		for b0 := 0; b0 < len(tasks) && !capped; b0 += batch {
+			b1 := b0 + batch
+			if b1 > len(tasks) {
+				b1 = len(tasks)
 			}
-			res := results[i]
-			R.Transitions(1)
-			_, dupState := seen[res.key]
-			if !dupState {
-				seen[res.key] = struct{}{}
-				newStates++
-				h := append(append([]uint16{}, frontier[tk.parent].hist...), tk.ev)
-				nextFrontier = append(nextFrontier, node{h, res.dup})
+			results := make([]result, b1-b0)
+			done := make([]bool, b1-b0)
+			next := b0
+			var mu sync.Mutex
+			var wg sync.WaitGroup
+			for w := 0; w < sp.workers; w++ {
+				wg.Add(1)
+				go func() {
+					defer wg.Done()
+					for {
+						mu.Lock()
+						lo := next
+						if lo >= b1 || time.Since(startWall) > sp.wallCap {
+							mu.Unlock()
+							return
+						}
+						hi := lo + sp.chunk
+						if hi > b1 {
+							hi = b1
+						}
+						next = hi
+						mu.Unlock()
+						// one bubble per chunk: executions run one after the other on the same fake clock
+						synctest.Test(t, func(t *testing.T) {
+							env := newBubbleEnv(sp.cfg)
+							defer env.close()
+							for i := lo; i < hi; i++ {
+								tk := tasks[i]
+								results[i-b0] = run(sp.cfg, env, histOf(alpha, frontier[tk.parent].hist, tk.ev))
+								done[i-b0] = true
+							}
+						})
+					}
+				}()
 			}
-			report(sec, sp, histOf(alpha, frontier[tk.parent].hist, tk.ev), res, !dupState)
+			wg.Wait()
+			// merge in task order: deterministic choice of the representative history
+			for i := b0; i < b1; i++ {
+				if !done[i-b0] {
+					capped = true
+					continue
+				}
+				tk := tasks[i]
+				res := results[i-b0]
+				R.Transitions(1)
+				_, dupState := seen[res.key]
+				if !dupState {
+					seen[res.key] = struct{}{}
+					newStates++
+					if depth < sp.depth {
+						h := append(append([]uint16{}, frontier[tk.parent].hist...), tk.ev)
+						nextFrontier = append(nextFrontier, node{h, res.dup})
+					}
+				}
+				report(sec, sp, histOf(alpha, frontier[tk.parent].hist, tk.ev), res, !dupState)
+			}
 		}
 		R.States(sec, int64(newStates))
 		perLevel = append(perLevel, newStates)
